@@ -29,6 +29,8 @@ Record cfg := {
   c_cb : bool;          (* callback API *)
   c_ev_match : bool;    (* CallbackEvents::RULE_MATCH *)
   c_ev_nomatch : bool;  (* CallbackEvents::RULE_NO_MATCH *)
+  c_ev_import : bool;   (* CallbackEvents::MODULE_IMPORT *)
+  c_ev_limit : bool;    (* CallbackEvents::STRING_REACHED_MATCH_LIMIT *)
   c_direct : bool;      (* contiguous memory (mem / file / mmap) *)
   c_frag_noscan : bool  (* fragmented: !modules_dynamic_values && !can_refetch_regions *)
 }.
@@ -38,7 +40,10 @@ Inductive intr := Never | AbortAt (k : N) | TimeoutAt (j : N).
 Inductive err := ETimeout | EAbort | EPanic.
 
 Record erule := { er_id : N; er_ns : nat; er_matched : bool }.
-Inductive event := EvMatch (id : N) | EvNoMatch (id : N).
+Inductive event :=
+| EvMatch (id : N) | EvNoMatch (id : N)
+| EvImport (module : N)          (* ModuleImport *)
+| EvLimit (string : N).          (* StringReachedMatchLimit *)
 
 (* scan state: scan_data.rules, events delivered, check counter *)
 Record sstate := {
@@ -52,8 +57,11 @@ Record inputs := {
   i_ext : list value;
   i_filesize : option N;
   i_mem : option (list N);
-  i_ac_checks : N                   (* number of Aho-Corasick hits = timeout checks of the string scan *)
+  i_ac : list (list N);             (* one entry per Aho-Corasick hit, in scan order (= one timeout check): the
+                                       strings that reach the match limit while this hit is handled *)
+  i_imports : list N                (* imported modules, in the order of `evaluated_modules` *)
 }.
+Definition i_ac_checks (inp : inputs) : N := nlen (i_ac inp).
 
 Definition can_noscan (c : cfg) : bool :=
   negb (c_full c) && negb (c_nm c) && (c_direct c || c_frag_noscan c).
@@ -231,9 +239,30 @@ Definition eval_without_matches (c : cfg) (it : intr) (inp : inputs) (sc : scann
     do ok <- eval_rules c it inp x (s_rules sc) false;
     ret (if ok then NSDone else NSUndecidable).
 
-(* Inner::do_scan (no modules: no import events) *)
+(* ScanData::send_module_import_events_to_cb *)
+Fixpoint emit_all (it : intr) (evs_ : list event) : M unit :=
+  match evs_ with
+  | [] => ret tt
+  | e :: rest => do _ <- emit it e; emit_all it rest
+  end.
+Definition send_imports (c : cfg) (it : intr) (inp : inputs) : M unit :=
+  if c_cb c && c_ev_import c then emit_all it (map EvImport (i_imports inp)) else ret tt.
+
+(* AcScan::scan_region over all regions: one timeout check per Aho-Corasick hit, then the
+   StringReachedMatchLimit events of that hit *)
+Fixpoint ac_phase (c : cfg) (it : intr) (hits : list (list N)) : M unit :=
+  match hits with
+  | [] => ret tt
+  | lim :: rest =>
+      do _ <- tick it 1;
+      do _ <- (if c_cb c && c_ev_limit c then emit_all it (map EvLimit lim) else ret tt);
+      ac_phase c it rest
+  end.
+
+(* Inner::do_memory_scan followed by the evaluation with matches *)
 Definition full_scan (c : cfg) (it : intr) (inp : inputs) (sc : scanner) : M unit :=
-  do _ <- tick it (i_ac_checks inp);
+  do _ <- ac_phase c it (i_ac inp);
+  do _ <- (if c_direct c then ret tt else send_imports c it inp);
   do xu <- eval_globals c it inp (ctx0 sc (Some (i_matches inp))) (s_globals sc) false;
   let '(x, _) := xu in
   do _ <- fixup c x;
@@ -243,7 +272,9 @@ Definition full_scan (c : cfg) (it : intr) (inp : inputs) (sc : scanner) : M uni
     do _ <- eval_rules c it inp x (s_rules sc) true;
     ret tt.
 
+(* Inner::do_scan *)
 Definition do_scan (c : cfg) (it : intr) (inp : inputs) (sc : scanner) : M unit :=
+  do _ <- (if c_direct c then send_imports c it inp else ret tt);
   if can_noscan c then
     do r <- on_timeout (eval_without_matches c it inp sc)
                        (do _ <- flush c it; fail ETimeout);
@@ -274,6 +305,6 @@ Definition erule_eqb (a b : erule) : bool :=
   (er_id a =? er_id b) && Bool.eqb (er_matched a) (er_matched b).
 Definition event_eqb (a b : event) : bool :=
   match a, b with
-  | EvMatch x, EvMatch y | EvNoMatch x, EvNoMatch y => x =? y
+  | EvMatch x, EvMatch y | EvNoMatch x, EvNoMatch y | EvImport x, EvImport y | EvLimit x, EvLimit y => x =? y
   | _, _ => false
   end.
